@@ -338,6 +338,10 @@ def draw_setup(
         a, b = int(a), int(b)
         zm = float(rng.uniform(2.0, 30.0))
         base = zm * float(rng.uniform(0.12, 0.9))
+        if int(base * 1e6) % 3 == 0:
+            # a third of the grids have cell sizes that are multiples of 1/16 m: every grid coordinate is then exactly a float32 number
+            # too, which lets the call path hand measurement points over as single-precision values
+            base = max(round(base * 16), 1) / 16
         dx, dy = base * a, base * b
         xmax, ymax = dx * nx, dy * ny
         dx, dy = xmax / nx, ymax / ny  # exactly the solver's own arithmetic (pad widths are int(halo/dx))
